@@ -23,7 +23,11 @@ def analyse(prop: str, tier: str, repo: str):
     ctx = Ctx(P, F, R, tier)
     for rule in spec["rules"]:
         R.rules_run.append(rule.__name__)
-        rule(ctx)
+        try:
+            rule(ctx)
+        except AnalysisError as ex:
+            # one rule that cannot decide must not hide what the others found
+            R.errors.append(f"{rule.__name__}: {ex}")
     return R, F
 
 
@@ -48,12 +52,18 @@ def run_check(prop: str, tier: str, repo: str, evidence_dir: str, write_evidence
             from .selftest import run_selftest
             from .report import load_known, match_known
             known = load_known()
-            if all(match_known(prop, f, known) for f in R.findings):
+            if not R.errors and all(match_known(prop, f, known) for f in R.findings):
                 st = run_selftest(prop, repo)
                 extra["selftest"] = st
                 if st["undetected"] or st["twins_alarmed"]:
                     raise AnalysisError(f"self-test: undetected variants {st['undetected']}, twins alarmed {st['twins_alarmed']}")
-        return finish(R, tier, t0, spec["explanation"], spec["assumptions"], extra, evidence_dir, write_evidence)
+        extra["analysis_errors"] = list(R.errors)
+        rc = finish(R, tier, t0, spec["explanation"], spec["assumptions"], extra, evidence_dir, write_evidence)
+        for e in R.errors:
+            print(f"ANALYSIS-ERROR property={prop}: {e}")
+        if rc == 0 and R.errors:
+            return 2
+        return rc
     except AnalysisError as ex:
         print(f"ANALYSIS-ERROR property={prop}: {ex}")
         return 2
